@@ -9,6 +9,8 @@ IDN = {v: k for k, v in IDS.items()}
 
 def walk(node):
     """public tree -> the nested record the specification uses"""
+    if node is None:          # an internal node with a missing child: rendered as an impossible leaf so that the comparison fails
+        return {"leaf": True, "cnt": [-7, -7, -7]}
     c = node.num_samples_in_compared_subtrees
     cnt = [int(c[k]) if k in c else -1 for k in ("build", "a", "b")]
     if node.axis is None:
